@@ -67,6 +67,10 @@ pub struct Conn {
     pub chunk_c: u32,
     pub chunk_t: u32,
     pub flush_every: u8,
+    /// SOCKS entries only: the first bytes of the payload (the 8-byte connection token) leave in the SAME write as the SOCKS
+    /// handshake (for SOCKS5: greeting + request + payload), as an application that does not wait for the reply does
+    #[serde(default)]
+    pub pipeline: bool,
 }
 
 #[derive(Clone, Debug, Hash, PartialEq, Eq, Serialize, Deserialize)]
@@ -370,7 +374,7 @@ async fn read_exact_vec(s: &mut (dyn Io), n: usize) -> Result<Vec<u8>, String> {
 }
 
 /// open the local connection of `entry` towards the TCP target (or the closed port)
-async fn open_entry(f: &Fx, entry: Entry, port: u16) -> Result<Box<dyn Io>, String> {
+async fn open_entry(f: &Fx, entry: Entry, port: u16, early: &[u8]) -> Result<Box<dyn Io>, String> {
     match entry {
         Entry::TcpRemote => Ok(Box::new(TcpStream::connect(("127.0.0.1", f.lp_tcp)).await.map_err(|e| format!("connect tcp remote: {e}"))?)),
         Entry::UnixRemote => Ok(Box::new(UnixStream::connect(&f.uds).await.map_err(|e| format!("connect unix remote: {e}"))?)),
@@ -382,6 +386,7 @@ async fn open_entry(f: &Fx, entry: Entry, port: u16) -> Result<Box<dyn Io>, Stri
             } else {
                 req.extend(rs::v4_request_after_vn(1, port, [0, 0, 0, 9], b"user", Some(b"localhost")));
             }
+            req.extend_from_slice(early);
             s.write_all(&req).await.map_err(|e| e.to_string())?;
             let rep = read_exact_vec(&mut s, 8).await?;
             if rep != rs::v4_reply(90) {
@@ -391,17 +396,27 @@ async fn open_entry(f: &Fx, entry: Entry, port: u16) -> Result<Box<dyn Io>, Stri
         }
         Entry::Socks5V4 | Entry::Socks5Domain | Entry::Socks5V6 => {
             let mut s = TcpStream::connect(("127.0.0.1", f.socks_port)).await.map_err(|e| format!("connect socks: {e}"))?;
-            s.write_all(&[5, 1, 0]).await.map_err(|e| e.to_string())?;
-            let sel = read_exact_vec(&mut s, 2).await?;
-            if sel != [5, 0] {
-                return Err(format!("socks5 method selection {sel:02x?}"));
-            }
             let addr = match entry {
                 Entry::Socks5V4 => rs::Addr5::V4([127, 0, 0, 1]),
                 Entry::Socks5Domain => rs::Addr5::Domain(b"localhost".to_vec()),
                 _ => rs::Addr5::V6(std::net::Ipv6Addr::LOCALHOST.octets()),
             };
-            s.write_all(&rs::v5_request(5, 1, 0, &addr, port)).await.map_err(|e| e.to_string())?;
+            if early.is_empty() {
+                s.write_all(&[5, 1, 0]).await.map_err(|e| e.to_string())?;
+            } else {
+                // greeting, request and the first payload bytes in one write
+                let mut all = vec![5u8, 1, 0];
+                all.extend(rs::v5_request(5, 1, 0, &addr, port));
+                all.extend_from_slice(early);
+                s.write_all(&all).await.map_err(|e| e.to_string())?;
+            }
+            let sel = read_exact_vec(&mut s, 2).await?;
+            if sel != [5, 0] {
+                return Err(format!("socks5 method selection {sel:02x?}"));
+            }
+            if early.is_empty() {
+                s.write_all(&rs::v5_request(5, 1, 0, &addr, port)).await.map_err(|e| e.to_string())?;
+            }
             let head = read_exact_vec(&mut s, 4).await?;
             if head[0] != 5 || head[1] != 0 || head[2] != 0 {
                 return Err(format!("socks5 reply header {head:02x?} is not a success reply"));
@@ -446,7 +461,10 @@ async fn run_conn(f: &'static Fx, c: Conn) -> Result<(), (String, String)> {
     f.registry.lock().unwrap().insert(token, TScript { conn: c.clone(), go: go.clone(), result: None });
     let e = |sig: &str, msg: String| (sig.to_string(), format!("{:?} {:?} c2t={} t2c={}: {msg}", c.entry, c.order, c.n_c2t, c.n_t2c));
     let port = if c.order == Order::TargetPortClosed { f.closed_port } else { f.tcp_target_port };
-    let s = match open_entry(f, c.entry, port).await {
+    let socks = matches!(c.entry, Entry::Socks4 | Entry::Socks4a | Entry::Socks5V4 | Entry::Socks5Domain | Entry::Socks5V6);
+    let pipelined = c.pipeline && socks;
+    let early = token.to_be_bytes();
+    let s = match open_entry(f, c.entry, port, if pipelined { &early } else { &[] }).await {
         Ok(s) => s,
         Err(m) => {
             // a proxy entry may refuse at the handshake when the target is unreachable; that closes the connection, which is fine
@@ -462,7 +480,9 @@ async fn run_conn(f: &'static Fx, c: Conn) -> Result<(), (String, String)> {
     let chunk = (c.chunk_c as usize).max(1);
     let flush_every = c.flush_every;
     // the token goes out first in every order: the target needs it to find its script
-    if let Err(x) = wr.write_all(&token.to_be_bytes()).await {
+    if pipelined {
+        // (already sent with the handshake)
+    } else if let Err(x) = wr.write_all(&token.to_be_bytes()).await {
         if !matches!(c.order, Order::TargetPortClosed) {
             return Err(e("c01-local-io", format!("writing the first 8 bytes: {x}")));
         }
@@ -944,15 +964,15 @@ fn conn() -> impl Strategy<Value = Conn> {
         size,
         prop::sample::select(vec![1u32, 7, 100, 1460, 16_384, 100_000]),
         prop::sample::select(vec![1u32, 13, 512, 1460, 65_536]),
-        0u8..4,
+        (0u8..4, prop::bool::weighted(0.3)),
     )
-        .prop_map(|(entry, order, a, b, chunk_c, chunk_t, flush_every)| {
+        .prop_map(|(entry, order, a, b, chunk_c, chunk_t, (flush_every, pipeline))| {
             // the first 8 bytes client->target carry the connection token
             let n_c2t = a.max(8);
             // tiny chunks only with modest sizes (keeps a case within seconds)
             let chunk_c = if n_c2t > 50_000 { chunk_c.max(1460) } else { chunk_c };
             let chunk_t = if b > 50_000 { chunk_t.max(1460) } else { chunk_t };
-            Conn { entry, order, n_c2t, n_t2c: b, chunk_c, chunk_t, flush_every }
+            Conn { entry, order, n_c2t, n_t2c: b, chunk_c, chunk_t, flush_every, pipeline }
         })
 }
 
@@ -977,7 +997,7 @@ pub fn run(ctx: &Ctx, rep: &mut Report) {
         |i| {
             let entry = ENTRIES[(i % 8) as usize];
             let order = [Order::ClientHalfCloseFirst, Order::TargetHalfCloseFirst, Order::Simultaneous, Order::TargetReset, Order::TargetPortClosed][(i / 8) as usize];
-            TcpCase { conns: vec![Conn { entry, order, n_c2t: 3000, n_t2c: 5000, chunk_c: 700, chunk_t: 900, flush_every: 1 }] }
+            TcpCase { conns: vec![Conn { entry, order, n_c2t: 3000, n_t2c: 5000, chunk_c: 700, chunk_t: 900, flush_every: 1, pipeline: false }, Conn { entry, order, n_c2t: 3000, n_t2c: 5000, chunk_c: 700, chunk_t: 900, flush_every: 1, pipeline: true }] }
         },
         check_tcp,
     );
@@ -993,7 +1013,7 @@ pub fn run(ctx: &Ctx, rep: &mut Report) {
             let entry = ENTRIES[((i / 2) % 8) as usize];
             let big = 40_000_000 + (i as u32 / 16) * 3_000_000;
             let (order, n_c2t, n_t2c) = if i % 2 == 0 { (Order::TargetStalls, big, 70_000) } else { (Order::ClientStalls, 70_000, big) };
-            TcpCase { conns: vec![Conn { entry, order, n_c2t, n_t2c, chunk_c: 16_384, chunk_t: 65_536, flush_every: 0 }] }
+            TcpCase { conns: vec![Conn { entry, order, n_c2t, n_t2c, chunk_c: 16_384, chunk_t: 65_536, flush_every: 0, pipeline: false }] }
         },
         check_tcp,
     );
@@ -1006,7 +1026,7 @@ pub fn run(ctx: &Ctx, rep: &mut Report) {
         |i| {
             let n_udp = [70u16, 70, 20, 140, 140, 20][(i % 6) as usize];
             let socks5 = i % 2 == 0;
-            let mk = |entry| Conn { entry, order: Order::ClientHalfCloseFirst, n_c2t: 20_000, n_t2c: 9_000, chunk_c: 4096, chunk_t: 4096, flush_every: 0 };
+            let mk = |entry| Conn { entry, order: Order::ClientHalfCloseFirst, n_c2t: 20_000, n_t2c: 9_000, chunk_c: 4096, chunk_t: 4096, flush_every: 0, pipeline: false };
             CrowdCase { n_udp, socks5, tcp: vec![mk(Entry::Socks5V4), mk(Entry::TcpRemote), mk(Entry::HttpConnect), mk(Entry::UnixRemote)] }
         },
         check_crowd,
